@@ -3,6 +3,7 @@ import PfModel.Model.MapPieces
 import PfModel.Model.MapPiecesSub
 import PfModel.Model.MapPiecesFlow
 import PfModel.Model.MapPiecesReduced
+import PfModel.Model.MapPiecesWhole
 import PfModel.Lemmas.MapTotal
 /-! Driver for C06: `pieces.run` (a sequence of `map(fixed_indices=…, cleanup=False)` on one folder), `learners.make`
     (`create_learners`), `learners.exec` (a sequence of `learner.function(x)` calls on the shared store), `sel.indices`
@@ -118,6 +119,40 @@ def handle (m : String) (a : Json) : R Json := do
                      ("accepted", jList jBool (fixed.map accepted)),
                      ("nodup", jBool (decide (akeys rF.store).Nodup)),
                      ("conforms", jBool (PF.C01.Conforms sub inputs internal))]
+  | "pieces.whole" =>
+    -- round 9: the hypotheses and conclusions of `C06_pieces_whole` / `C06_final_recomputes_uncovered` (Props/C06Whole.lean) for one
+    -- sequence of `fixed_indices` dictionaries run on an empty folder: do the masks cover every mapped function (`coverB`), which
+    -- external indices does no part select (`uncovered`, from the masks alone), what does the folder the parts leave miss
+    -- (`missingOf`), is it complete, and how many calls does a final full run make
+    let fs ← listF getMFunc a "funcs"
+    let inputs ← getKw (← fld a "inputs")
+    let internal := (← optF (asList (asPair asStr (asList asNat))) a "internal").getD []
+    let parts ← listF (asList (asPair asStr getSel)) a "parts"
+    let S ← optF (asList asStr) a "output_names"
+    let auto := (← optF asBool a "auto").getD false
+    match Sub.prepare fs inputs S auto with
+    | .error e => return putMErr (subErr e)
+    | .ok sub =>
+      match mapShapes sub inputs (constructInternal sub internal) with
+      | .error e => return putMErr e
+      | .ok (shapes, masks) =>
+        let gens := (generations sub).flatten
+        let hyp := decide ((gens.flatMap (·.outputs)).Nodup) && gens.all (fun f => !f.outputs.isEmpty)
+        let putTbl := jList (jPair jStr (jList jNat))
+        let mapped := gens.filterMap fun f => match mappedInfo shapes masks f with
+          | some (_, sh, mk) => some (jArr [jStr f.name, jList jStr f.outputs, jNat (prod (extOf mk sh))])
+          | none => none
+        let base := [("hyp", jBool hyp), ("cover", jBool (coverB sub shapes masks parts)),
+                     ("uncovered", putTbl (uncovered sub shapes masks parts)), ("mapped", jArr mapped)]
+        match runPieces sub inputs internal (parts.map some) [] with
+        | .error e => return jObj (base ++ [("run", putMErr e)])
+        | .ok rs =>
+          let Sf := finalStore rs []
+          let fin := match runPart sub inputs internal none Sf with
+            | .ok rL => jNat rL.res.calls.length
+            | .error e => putMErr e
+          return jObj (base ++ [("missing", putTbl (missingOf sub shapes masks Sf)), ("complete", jBool (completeB sub shapes masks Sf)),
+                                ("final_calls", fin)])
   | "reduced.table" =>
     -- round 4: `_reduced_axes(pipeline)` as a dictionary (rows without an axis are not created by pipefunc: dropped), next to
     -- `Pipeline.mapspec_axes` and the axes some function maps over
